@@ -10,12 +10,9 @@ from __future__ import annotations
 
 from fractions import Fraction
 
-import fpy2 as fp
-from fpy2.number import Float, RealFloat
-
 from . import formats as F
 from .denote import NAN, NINF, NZERO, PINF, PZERO, SPECIALS, pow2, show, to_float_obj
-from .oracle_round import MODES, Model, floor_log2, member
+from .oracle_round import Model, floor_log2, member
 
 # ---------------------------------------------------------------------------
 # JSON encoding of specs and operands
